@@ -33,7 +33,7 @@ func (p *Prog) desc(v ssa.Value, depth int) string {
 	case *ssa.FreeVar:
 		return "free:" + typeShort(x.Type())
 	case *ssa.Global:
-		return "global:" + shortPkg(x.Pkg.Pkg.Path()) + "." + x.Name()
+		return "global:" + shortPkg(x.Pkg.Pkg.Path()) + "." + GName(x)
 	case *ssa.Function:
 		return "func:" + ShortKey(x)
 	case *ssa.UnOp:
@@ -43,7 +43,7 @@ func (p *Prog) desc(v ssa.Value, depth int) string {
 				return path
 			}
 			if g, ok := x.X.(*ssa.Global); ok {
-				return "global:" + shortPkg(g.Pkg.Pkg.Path()) + "." + g.Name()
+				return "global:" + shortPkg(g.Pkg.Pkg.Path()) + "." + GName(g)
 			}
 			if a, ok := x.X.(*ssa.Alloc); ok {
 				// local variable cell: describe by its single stored value if unique
@@ -188,7 +188,7 @@ func (p *Prog) fieldPath(addr ssa.Value) (string, bool) {
 		if st == nil {
 			return "", false
 		}
-		names = append([]string{st.Field(fa.Field).Name()}, names...)
+		names = append([]string{FName(st, fa.Field)}, names...)
 		cur = fa.X
 	}
 	if len(names) == 0 {
@@ -208,7 +208,7 @@ func (p *Prog) fieldPath(addr ssa.Value) (string, bool) {
 		return base + strings.Join(names, "."), true
 	}
 	if n := namedOf(cur.Type()); n != nil {
-		base = n.Obj().Name()
+		base = TName(n)
 	} else {
 		base = typeShort(cur.Type())
 	}
@@ -227,7 +227,7 @@ func (p *Prog) fieldPathVal(f *ssa.Field) (string, bool) {
 		if st == nil {
 			return "", false
 		}
-		names = append([]string{st.Field(fv.Field).Name()}, names...)
+		names = append([]string{FName(st, fv.Field)}, names...)
 		cur = fv.X
 	}
 	if u, ok := cur.(*ssa.UnOp); ok && u.Op == token.MUL {
@@ -236,7 +236,7 @@ func (p *Prog) fieldPathVal(f *ssa.Field) (string, bool) {
 		}
 	}
 	if n := namedOf(cur.Type()); n != nil {
-		return n.Obj().Name() + "." + strings.Join(names, "."), true
+		return TName(n) + "." + strings.Join(names, "."), true
 	}
 	return typeShort(cur.Type()) + "." + strings.Join(names, "."), true
 }
@@ -683,8 +683,9 @@ func ResolveCell(v ssa.Value) ssa.Value {
 }
 
 // expandBoolPhi: a branch on a materialised short-circuit value.
-//   c := a && b   lowers to  phi(false | b)  — c true  ⇒ b true and the guards of b's block (a true);
-//   c := a || b   lowers to  phi(true  | b)  — c false ⇒ b false and the guards of b's block (a false).
+//
+//	c := a && b   lowers to  phi(false | b)  — c true  ⇒ b true and the guards of b's block (a true);
+//	c := a || b   lowers to  phi(true  | b)  — c false ⇒ b false and the guards of b's block (a false).
 func (p *Prog) expandBoolPhi(a Atom, depth int) []Atom {
 	if depth > 3 || a.Op != token.ILLEGAL || a.X == nil {
 		return nil
